@@ -17,7 +17,7 @@ RULE = ("histories of 5-60 calls: add_rule (5 canned behaviours: constant, decli
         "echo rules produce their token with fields bound by name; (4) user families convert by the exact rational factor of their chain; tie: "
         "the whole history is replayed on the Lean model (return values and every line result); non-trivial = history containing a deletion or a "
         "rejected call; distinct = distinct histories")
-ASSUMPTIONS = ["rule behaviours are the five canned RuleTrait implementations shared by the harness and the model (ApiKind)",
+ASSUMPTIONS = ["rule behaviours are the six canned RuleTrait implementations (constant, decline, echo a field, sum, money, accept-only-a-given-word) shared by the harness and the model (ApiKind)",
                "patterns whose own output matches them again (non-terminating rewriting) are not generated"]
 TRUSTED = ["pattern tokenisation is the implementation's own (lex hook) and handed to the model"]
 
@@ -30,8 +30,11 @@ POOL = [  # (pattern, matching line per language or None, fields)
     ("{MONEY:m} zap", "$5 zap", ["m"]),
     ("{NUMBER:a} plus {NUMBER:b} plus {NUMBER:c}", "1 plus 2 plus 3", ["a", "b", "c"]),
     ("zip {NUMBER:a}", "zip 9", ["a"]),
+    ("{NUMBER:n} {TEXT:w}", "10 btc", ["n", "w"]),
+    ("{NUMBER:n} voucher", "5 voucher", ["n"]),
 ]
-OTHER_LINES = ["1 + 2", "10 usd to eur", "5 km to m", "3 foo", "foo", "bar", "12 baz", "2 days", "x = 5", "zip zip 2", "8 foo 2 + 1", "(7 foo) * 2"]
+OTHER_LINES = ["1 + 2", "10 usd to eur", "5 km to m", "3 foo", "foo", "bar", "12 baz", "2 days", "x = 5", "zip zip 2", "8 foo 2 + 1", "(7 foo) * 2",
+               "5 voucher 10 btc", "7 foo 10 btc", "3 eth 10 btc", "10 btc 5 voucher", "2 btc 3 btc"]
 NAMES = ["r1", "r2", "r3", "dup", "same"]
 
 
@@ -51,7 +54,7 @@ def gen_history(rng, n):
         k = rng.random()
         if k < 0.32:
             pats = rng.sample(POOL, rng.choice([1, 1, 2]))
-            kind = rng.choice(["const", "const", "decline", "echo", "sum", "coin"])
+            kind = rng.choice(["const", "const", "decline", "echo", "sum", "coin", "when", "when"])
             op = {"op": "rule_add", "lang": rng.choice(["en", "en", "en", "tr", "xx"]), "name": rng.choice(NAMES), "kind": kind,
                   "patterns": [p[0] for p in pats]}
             if kind in ("const", "coin"):
@@ -60,6 +63,14 @@ def gen_history(rng, n):
                 op["cur"] = rng.choice(["usd", "eur", "zzz"])
             if kind == "echo":
                 op["field"] = rng.choice(sum((p[2] for p in pats), []) + ["zz"])
+            if kind == "when":
+                # accepts a match only when the TEXT field is a given word: declines one match of a line and accepts another
+                if rng.random() < 0.8:
+                    pats = [POOL[8]] + ([rng.choice(POOL)] if rng.random() < 0.3 else [])
+                    op["patterns"] = [p[0] for p in pats]
+                op["field"] = rng.choice(["w", "w", "t"])
+                op["word"] = rng.choice(["btc", "btc", "eth", "hello", "foo"])
+                op["v"] = rng.choice([1000, 42, 0.5])
             H.append(op)
         elif k < 0.47:
             H.append({"op": "rule_del", "lang": rng.choice(["en", "en", "tr", "xx"]), "name": rng.choice(NAMES + ["nope"])})
@@ -76,6 +87,26 @@ def gen_history(rng, n):
             line = rng.choice([p[1] for p in POOL] + OTHER_LINES + ["4 zzpb to zzpd", "4 zzpc to zzpa", "2 zzqb + 3 zzqc", "5 zzpa to zzpb", "1 zzpd to zzpc"])
             H.append({"op": "exec", "lang": rng.choice(["en", "en", "tr"]), "text": line})
     return H
+
+
+def curated_histories(rng):
+    """two rules and a line with two matches: the rule registered first is offered a match it declines, the other rule rewrites
+    those words, and in the next pass the first rule has a match it accepts; in both registration orders, with deletions and
+    re-registrations in between"""
+    out = []
+    for word, v in (("btc", 1000), ("eth", 42)):
+        when = {"op": "rule_add", "lang": "en", "name": "r1", "kind": "when", "patterns": ["{NUMBER:n} {TEXT:w}"], "field": "w", "word": word, "v": v}
+        for other in ({"op": "rule_add", "lang": "en", "name": "r2", "kind": "coin", "patterns": ["{NUMBER:n} voucher"], "v": 100, "cur": "usd"},
+                      {"op": "rule_add", "lang": "en", "name": "r2", "kind": "echo", "patterns": ["bar {TEXT:t}"], "field": "t"},
+                      {"op": "rule_add", "lang": "en", "name": "r2", "kind": "const", "patterns": ["{NUMBER:n} voucher"], "v": 7}):
+            lines = [f"5 voucher 10 {word}", f"10 {word} 5 voucher", f"3 foo 10 {word}", f"bar hello 2 {word}", f"1 zzz 2 yyy 3 {word}", f"2 {word} 3 {word}"]
+            ex = [{"op": "exec", "lang": "en", "text": t} for t in lines]
+            dele = lambda n: {"op": "rule_del", "lang": "en", "name": n}
+            out.append([when, other] + ex)
+            out.append([other, when] + ex)
+            out.append([when, other, dele("r1"), when] + ex)
+            out.append([when, other] + ex[:2] + [dele("r2")] + ex + [other] + ex)
+    return out
 
 
 PROBES = [(l, p[1]) for p in POOL for l in ("en", "tr")] + [("en", x) for x in OTHER_LINES] + \
@@ -144,8 +175,8 @@ def model_requests(H, lexed):
             if any(p is None for p in pats):
                 req.append("bad")
             else:
-                a1 = bits(op["v"]) if op["kind"] in ("const", "coin") else (wire.hx(op["field"]) if op["kind"] == "echo" else "-")
-                a2 = op.get("cur", "-")
+                a1 = bits(op["v"]) if op["kind"] in ("const", "coin", "when") else (wire.hx(op["field"]) if op["kind"] == "echo" else "-")
+                a2 = (wire.hx(op["field"]) + ":" + wire.hx(op["word"])) if op["kind"] == "when" else op.get("cur", "-")
                 req.append("\t".join(["rule_add", op["lang"], wire.hx(op["name"]), op["kind"], a1, a2, "|".join(pats)]))
         elif o == "rule_del":
             req.append("\t".join(["rule_del", op["lang"], wire.hx(op["name"])]))
@@ -169,7 +200,7 @@ def run(ctx, model_ok):
     rng = ctx.rng
     cfg = C.json.load(open(C.REPO + "/src/json/config.json", encoding="utf-8"))
     builtin = {f["name"] for f in cfg["types"]}
-    hist = [gen_history(rng, rng.randint(5, 60)) for _ in range(ctx.n(120, 2500))]
+    hist = curated_histories(rng) + [gen_history(rng, rng.randint(5, 60)) for _ in range(ctx.n(120, 2500))]
     now = C.run_impl([{"op": "now"}])[0]
     for hi, H in enumerate(hist):
         # --- implementation: the history with checkpoints -----------------------------------------
